@@ -10,8 +10,16 @@ package classifier
 //@ func max
 //@   inline
 //@
+//@ // confOf(klen, distance): the confidence computed from a word-level edit
+//@ // distance; every reported Confidence is this function of the distance that
+//@ // was measured for the reported span (C02)
+//@ spec confOf(klen int, distance int) float64
+//@ ghostvar lastDist int
+//@ ghostvar lastScore float64
+//@
 //@ func confidencePercentage
 //@   arith bv
+//@   function confOf
 //@   requires 0 <= distance && 0 <= klen && klen < (1 << 48)
 //@   ensures !isNaN(result) && result <= 1.0
 //@   ensures klen == 0 ==> result == 1.0
@@ -354,6 +362,8 @@ package classifier
 //@   requires len(known.Tokens) <= cap(known.runes) && nsep(id, runeStr(47)) >= 1
 //@   ensures result1 >= 0 && result2 >= 0
 //@   ensures !isNaN(result0) && result0 <= 1.0
+//@   ensures result0 == 0.0 || (lastDist >= 0 && result0 == confOf(len(known.Tokens), lastDist))
+//@   ghostset lastDist = result after scoreDiffs
 //@   modifies nothing
 //@   props C10 C03 C02 C09 C04
 //@
@@ -544,6 +554,8 @@ package classifier
 //@   ensures forall i int :: 0 <= i && i < len(result0.Matches) ==> okRes(result0.Matches[i], c.threshold, result0.TotalInputLines)
 //@   ensures sortedConf(result0.Matches)
 //@   modifies nothing
+//@   ghostset lastScore = result0 after score
+//@   access Match.Confidence write requires same(value, lastScore)
 //@   loop 1 invariant firstPass != nil && fresh(firstPass) && wfDoc(id) && fresh(id) && id.s == nil && id.dict == c.dict
 //@   loop 1 invariant forall l string :: (l in firstPass) ==> (l in c.docs) && firstPass[l] == c.docs[l]
 //@   loop 2 invariant fresh(firstPass) && wfDoc(id) && fresh(id) && wfSet(id.s) && id.s.Tokens == id.Tokens && id.dict == c.dict
